@@ -319,6 +319,8 @@ def _annotated(I, node, env, ann, fname, k, kind, iterable=None):
                 raise OutOfReach(f"loop {tag}: {n} ({type(cur).__name__}) is mutated in the body; the annotation needs a havoc rule for it")
         else:
             env.vars[n] = havoc_like(I, cur, n)
+    for hv in ann.get("havoc_heap", ()):
+        hv(I, st)
     for g in ann.get("ghost", ("ticks", "copied", "kdf_calls")):
         if g in ctx.ghost:
             fg = fresh_int("ghost_" + g)
